@@ -136,8 +136,27 @@ var (
 	reUID   = regexp.MustCompile(`UID (\d+)`)
 )
 
+var reLiteral = regexp.MustCompile(`\{(\d+)\}\r\n`)
+
+// stripLiterals removes IMAP literals ({n}CRLF + n bytes) so that patterns never match message content.
+func stripLiterals(s string) string {
+	for {
+		loc := reLiteral.FindStringSubmatchIndex(s)
+		if loc == nil {
+			return s
+		}
+		n, _ := strconv.Atoi(s[loc[2]:loc[3]])
+		end := loc[1] + n
+		if end > len(s) {
+			end = len(s)
+		}
+		s = s[:loc[0]] + "<literal>" + s[end:]
+	}
+}
+
 // canonResp renders a wire-format untagged response in the codec's form.
 func canonResp(s string) string {
+	s = stripLiterals(s)
 	if m := reCount.FindStringSubmatch(s); m != nil {
 		return map[string]string{"EXISTS": "E", "RECENT": "R", "EXPUNGE": "X"}[m[2]] + m[1]
 	}
